@@ -34,7 +34,8 @@ def covers(g, pat):
 REQS = [("set", "a/b", 1), ("get", "a/b", None), ("pget", "a/?", None), ("ls", "a", None), ("ls", None, None), ("publish", "a/p", 1), ("export", None, None),
         ("import", None, {"data": {"t": {"a": {"t": {"i": {"v": 7}}}}}}), ("get", "a/i", None), ("delete", "a/b", None), ("pdelete", "a/?", None), ("get", "a", None)]
 GRANTS = {"ro": {"read": ["a/#"]}, "wo": {"write": ["a/#"]}, "do": {"delete": ["a/#"]}, "none": {}, "parent": {"read": ["a"]}, "kids": {"read": ["a/?"]},
-          "all": {"read": ["#"], "write": ["#"], "delete": ["#"]}, "rw-all": {"read": ["#"], "write": ["#"]}}
+          "all": {"read": ["#"], "write": ["#"], "delete": ["#"]}, "rw-all": {"read": ["#"], "write": ["#"]},
+          "r-all": {"read": ["#"]}, "w-all": {"write": ["#"]}, "d-all": {"delete": ["#"]}}
 
 def auth_table():
     cases = []
